@@ -30,6 +30,27 @@ class InjectedInterrupt(KeyboardInterrupt):
     injected = True
 
 
+class InjectedExit(SystemExit):
+    """What a SIGTERM handler calling sys.exit() raises in the caller's thread while biotite code runs."""
+
+    injected = True
+
+
+class InjectedAbort(BaseException):
+    """Any other asynchronous BaseException (asyncio.CancelledError, a test runner's timeout, GeneratorExit...)."""
+
+    injected = True
+
+
+INJECTED = {"KeyboardInterrupt": InjectedInterrupt, "SystemExit": InjectedExit, "BaseException": InjectedAbort}
+INJECTED_CLASSES = (InjectedInterrupt, InjectedExit, InjectedAbort)
+
+
+def injected(script):
+    """The asynchronous exception a script's `interrupt` fault delivers."""
+    return INJECTED[script.get("intr_class", "KeyboardInterrupt")]()
+
+
 class World:
     def __init__(self, root, stats):
         self.root = root
@@ -46,6 +67,7 @@ class World:
         self.version_script = None
         self.events_fired = 0
         self.interrupt_at = None  # simulated instant at which the next blocking wait is interrupted
+        self.interrupt_class = InjectedInterrupt
 
     # ---- discrete-event time ---------------------------------------------------------------
     def after(self, at, fn):
@@ -81,7 +103,7 @@ class World:
             self.advance_to(max(ia, self.now))
             self.interrupt_at = None
             self.stats["fault:interrupt-in-wait"] += 1
-            raise InjectedInterrupt()
+            raise self.interrupt_class()
         self.advance_to(t)
 
 
@@ -154,7 +176,7 @@ class SimPopen:
             if launch == "eagain":
                 raise BlockingIOError(errno.EAGAIN, "Resource temporarily unavailable")
             if launch == "interrupt":
-                raise InjectedInterrupt()
+                raise injected(script)
             raise OSError(errno.EIO, launch)
         self.pid = w.next_pid
         w.next_pid += 1
